@@ -126,6 +126,22 @@ class G:
                 opts_[loc[0]] = t2
                 self.write(scope, loc[0], t2)
             self.rules.append({'match': {'key': key}, 'action': 'next', 'options': opts_})
+        elif k in ('W12', 'W13'):
+            # one set act / one script result writing two variables that are held by two different enclosing tasks
+            root_n = self.r.choice(list(self.env['root']))
+            loc = list(self.env.get(scope, {})) if scope else []
+            t, t2 = self.newtag(), self.newtag()
+            vals = {root_n: t}
+            self.write(scope, root_n, t)
+            if loc:
+                vals[loc[0]] = t2
+                self.write(scope, loc[0], t2)
+            if self.r.random() < 0.5:
+                vals = dict(reversed(list(vals.items())))
+            if k == 'W12':
+                a.update(uses='acts.transform.set', params=vals)
+            else:
+                a.update(uses='acts.transform.code', params='return { ' + ', '.join(f'{n}: {v}' for n, v in vals.items()) + ' };')
         elif k == 'R5':
             n = self.r.choice(['e0', 'e1', 'e2'])
             p = 'p' + str(len(self.probes))
@@ -184,7 +200,7 @@ class G:
 
 class DataFamily:
     name = 'data'
-    WRITERS = ['W1', 'W2', 'W3', 'W4', 'W5', 'W6', 'W7', 'W8', 'W9', 'W10', 'W11']
+    WRITERS = ['W1', 'W2', 'W3', 'W4', 'W5', 'W6', 'W7', 'W8', 'W9', 'W10', 'W11', 'W12', 'W13']
 
     def gen(self, rng, idx, opts):
         readers = opts.get('readers', ['R1', 'R2', 'R3', 'R4', 'R5'])
@@ -195,6 +211,10 @@ class DataFamily:
         store = opts.get('store', 'mem')
         sc = {'id': '', 'family': 'data', 'sched': rt['flavor'], 'runtime': rt, 'engine': {'store': store, 'keep_processes': True}, 'models': [json.dumps(wf)],
               'responder': {'mode': 'quiescent', 'rules': g.rules}, 'ops': [{'op': 'start', 'mid': 'm1', 'vars': {'pid': 'p1'}}, {'op': 'run', 'snap': opts.get('snap', 'none')}, {'op': 'snapshot', 'level': opts.get('snap', 'live') if opts.get('snap', 'none') != 'none' else 'live'}]}
+        if store == 'mem' and rng.random() < opts.get('evict', 0.3):
+            # the process is dropped from the cache at quiescent points and continues from its stored rows
+            sc['faults'] = {'evict_at': sorted(set(rng.randint(1, 8) for _ in range(rng.randint(1, 3))))}
+            sc['sched'] += '+evict'
         meta = {'penv': dict(g.penv), 'wf': wf, 'probes': g.probes, 'msgs': g.expect_msgs, 'steps': g.expect_steps, 'root': dict(g.env['root']), 'sub': 'single'}
         return {'scenarios': [sc], 'meta': meta, 'digest': digest(wf), 'nontrivial': len(g.probes) + len(g.expect_msgs) >= 1}
 
